@@ -170,6 +170,31 @@ theorem roundtrip_history (O : Oracles) (P : WParams) (fn : Bytes) (h : List Rec
   exact (history_lines O P h WState.new (st0 fn) (by rw [st0_store]; exact inv_new O _) hgood
     (by rw [st0_units]; exact hfresh)).1
 
+/-- every line the writer prints for `h` is shorter than the reader's line limit (64 KiB) -/
+def LinesFit (P : WParams) (h : List Rec) : Prop := ∀ l ∈ Writer.writeAll P h, l.length < maxToken
+
+/-- **roundtrip_history_limited.** The round trip against the reader WITH its line limit
+(`readAllLim`, C02's model of `bufio.Scanner`'s `MaxScanTokenSize`): when no printed line reaches
+64 KiB the limited reader delivers the same stream as the unlimited one — hence exactly
+`observeWritten h` — and reports no error. (The complement, a printed line of ≥ 65536 bytes, is
+class N1L: the real reader stops there with `token too long`.) -/
+theorem roundtrip_history_limited (O : Oracles) (P : WParams) (fn : Bytes) (h : List Rec)
+    (hnum : NumOKFor O P h) (hwf : WF O h = true) (hfit : LinesFit P h) :
+    (observeRead (readAllLim O fn (render (Writer.writeAll P h))).1).map Obs.abs =
+      (observeWritten h).map Obs.abs ∧
+    (readAllLim O fn (render (Writer.writeAll P h))).2 = none := by
+  have hwf' := hwf
+  simp only [WF, Bool.and_eq_true, Bool.not_eq_true'] at hwf'
+  have hclean : ∀ l ∈ Writer.writeAll P h, Clean l :=
+    history_clean O P h WState.new hnum (fun k hk => by simp [WState.new] at hk) (wf_recs hwf'.1).1 hwf'.2
+  have hlim : readAllLim O fn (render (Writer.writeAll P h)) =
+      (readAll O fn (render (Writer.writeAll P h)), none) := by
+    unfold readAllLim readAll
+    simp only [splitLinesLim_render _ hclean hfit, splitLines_render _ hclean]
+    rfl
+  rw [hlim]
+  exact ⟨roundtrip_history O P fn h hnum hwf, rfl⟩
+
 /-- Same round trip one level up: at the level of LINES the CR clause is not needed — the
 model reader fed with the printed lines gives `h` back for every history satisfying `WFnoCR`.
 (The CR clause matters only when lines are joined with LF and split again: N1.) -/
